@@ -793,7 +793,13 @@ def run(tier):
                     break
             if found:
                 c, r1, text = found
-                rep.violation("C13|%s|%s|%s|backend=%s|%s" % (payload, placement, case_text(c), backend, (r1["batch_fail"] or {}).get("real", "") or direc),
+                if r1["fails"]:
+                    how = r1["fails"][0]["direction"]
+                elif r1["batch_fail"]["real"] == "ok" and r1["batch_fail"]["canon"] in ("ok", "-"):
+                    how = "tree-differs-from-canonical-form"
+                else:
+                    how = "tool-fails:%s(canonical:%s)" % (r1["batch_fail"]["real"], r1["batch_fail"]["canon"])
+                rep.violation("C13|%s|%s|%s|backend=%s|%s" % (payload, placement, case_text(c), backend, how),
                               {"placement": placement, "payload": payload, "backend": backend, "case": {"outer": c["outer"], "inner": c["inner"]},
                                "input_rs": text, "result": {kk: vv for kk, vv in r1.items() if kk in ("fails", "batch_fail")}, "batches": listing[:50]},
                               "%s; smallest: %s / %s / `%s` in backend %s" % (direc, payload, placement, case_text(c), backend))
@@ -837,6 +843,12 @@ def run(tier):
             if r["fail"]:
                 sing_fail += 1
                 cl.setdefault((r["top"], r["fail"]), []).append(r)
+        if cl:  # confirming second run of every failing single-attribute input
+            ftexts = sorted(set(r["formula"] for lst in cl.values() for r in lst))
+            again, _ = singles(wd, probe, [f for f in d2 if render(f) in set(ftexts)], placement, payload)
+            if sorted((r["formula"], r["backend"], r["fail"]) for r in again if r["fail"]) != \
+                    sorted((r["formula"], r["backend"], r["fail"]) for lst in cl.values() for r in lst):
+                raise MachineryError("non-deterministic single-attribute failures (%s/%s)" % (placement, payload))
         for (topop, direc), lst in sorted(cl.items()):
             lst.sort(key=lambda r: (r["size"], r["formula"], BACKENDS.index(r["backend"])))
             r = lst[0]
@@ -853,20 +865,27 @@ def run(tier):
     errs = error_runs(wd)
     runs += len(errs)
     unspecified = {}
+    errbad = {}
     for e in errs:
         if e["must"]:
             judged += 1
             states += 1
             outcomes["error-formula:" + e["kind"]] = outcomes.get("error-formula:" + e["kind"], 0) + 1
             if not e["ok"]:
-                rep.violation("C13|error-formula|%s|%s|backend=%s|%s" % (e["payload"].split(" ")[0], e["cond"], e["backend"],
-                                                                          "silently-accepted" if e["kind"] == "ok" else "not-a-clean-rejection:" + e["kind"]),
-                              {"input_rs": err_text(e["cond"], e["payload"]), "error_formula": True, **e},
-                              "`#[diplomat::attr(%s, %s)]` (%s) in backend %s: expected rejection with a message and no files; got %s, tokens %s" % (
-                                  e["cond"], e["payload"], e["why"], e["backend"], e["kind"], e["tokens"]))
+                errbad.setdefault((e["cond"], e["payload"], "silently-accepted" if e["kind"] == "ok" else "not-a-clean-rejection:" + e["kind"]), []).append(e)
         else:
             unspecified.setdefault("%s, %s" % (e["cond"], e["payload"]), {"why": e["why"], "per_backend": {}})["per_backend"][e["backend"]] = (
                 e["kind"] if e["kind"] != "ok" else ("ok:disabled" if "zq7m0007" not in (e["tokens"] or []) else "ok:kept"))
+    if errbad:  # confirming second run
+        again = [(e["cond"], e["payload"], e["backend"], e["kind"]) for e in error_runs(wd) if e["must"] and not e["ok"]]
+        if sorted(again) != sorted((e["cond"], e["payload"], e["backend"], e["kind"]) for lst in errbad.values() for e in lst):
+            raise MachineryError("non-deterministic outcome of error formulas")
+    for (cond, payload, how), lst in sorted(errbad.items()):
+        e = lst[0]
+        rep.violation("C13|error-formula|%s|%s|%s" % (payload.split(" ")[0], cond, how),
+                      {"input_rs": err_text(cond, payload), "error_formula": True, "backends": [x["backend"] for x in lst], **e},
+                      "`#[diplomat::attr(%s, %s)]` (%s) in backend(s) %s: expected rejection with a message and no files; got %s, tokens %s" % (
+                          cond, payload, e["why"], ",".join(x["backend"] for x in lst), e["kind"], e["tokens"]))
     malformed = sorted(set(e["kind"] for e in errs if e["must"] and "malformed" in e["why"]))
 
     # ---- CLI aliases
@@ -874,6 +893,9 @@ def run(tier):
     if CHECK_CLI_ALIASES:
         alias = alias_runs(wd)
         runs += 2 * len(alias)
+        if any(not (a["primary"] == "ok" and a["aliased"] == "ok" and a.get("same_tree")) for a in alias):  # confirming second run
+            if [(a["alias"], a.get("tokens_alias"), a["aliased"]) for a in alias_runs(wd)] != [(a["alias"], a.get("tokens_alias"), a["aliased"]) for a in alias]:
+                raise MachineryError("non-deterministic outcome of CLI alias runs")
         for a in alias:
             judged += 1
             states += 1
